@@ -93,6 +93,8 @@ F: Dict[str, Dict[str, Any]] = {
     'reexport-sib-star-definer-consumer': {'a': 'class R46:\n    "r doc"\n    def m(self): "m doc"\n', 'b': 'from .a import R46\n__all__=["R46"]\n', 'c': 'from .a import *\nclass C46(R46):\n    def m(self): pass\n'},
     'cycle-alias-named-like-package': {'a': 'from . import b\nclass Rule47:\n    "rule doc"\n    def apply(self): "apply doc"\n',
                                        'b': 'from . import p\nclass Discount47(p.Rule47):\n    def apply(self): pass\nclass Big47(Discount47): pass\n', '__cyclic__': True},
+    'docupdate-module-via-pkg-attr': {'b': '"""Own docstring of b."""\nx48 = 1\n', 'c': 'import p\np.b.__doc__ = "Assigned by c."\n'},
+    'docupdate-module-via-alias': {'a': '"""Own docstring of a."""\ny49 = 1\n', 'c': 'import p as pk49\npk49.a.__doc__ = "Assigned by c."\n'},
     'cycle':        {'a': 'from .b import B17\nclass A17: pass\nclass A17b(B17): pass\n', 'b': 'from .a import A17\nclass B17(A17): pass\n', '__cyclic__': True},
     'cycle3':       {'a': 'from .b import B27\nclass A27(B27): pass\n', 'b': 'from .c import C27\nclass B27(C27): pass\n', 'c': 'from . import a\nclass C27: pass\nclass D27(a.A27): pass\n', '__cyclic__': True},
     'tc-cycle':     {'a': 'from typing import TYPE_CHECKING\nif TYPE_CHECKING:\n    from .b import B18\nclass A18: pass\n', 'b': 'from .a import A18\nclass B18(A18): pass\n', '__cyclic__': True},
